@@ -22,7 +22,8 @@ def main():
         try:
             with warnings.catch_warnings():
                 warnings.simplefilter("ignore")
-                r = compile_files([str(root / job["target"])], job["formats"], paths=[str(root)], include_sys_path=False,
+                r = compile_files([str(root / job["target"])], job["formats"],
+                                  paths=[str(root / x) for x in job.get("paths") or ["."]], include_sys_path=False,
                                   settings=st,
                                   storage_layout_paths=[str(root / job["layout"])] if job.get("layout") else None)
             r = list(r.values())[0]
